@@ -716,6 +716,13 @@ func exprString(v ssa.Value, depth int) string {
 		if n := callMethodName(x); n != "" && len(argsOf(x)) == 0 {
 			return n + "()"
 		}
+		if bi, ok := x.Call.Value.(*ssa.Builtin); ok && len(x.Call.Args) == 1 {
+			return bi.Name() + "(" + exprString(x.Call.Args[0], depth+1) + ")"
+		}
+	case *ssa.Phi:
+		if x.Comment != "" {
+			return "phi:" + x.Comment
+		}
 	case *ssa.Parameter:
 		return "$" + x.Name()
 	}
